@@ -272,7 +272,7 @@ class Table:
     def index(self, *indx) -> 'Table':
         if not indx: return self
         if not self._data: return self
-        indx = [col for col in indx if col in self._columns]
+        indx = list(dict.fromkeys(col for col in indx if col in self._columns)) #a column named twice is sorted on once
         if self._indexes == tuple(indx): return self
 
         lohis   = [(0,len(self))]
